@@ -18,7 +18,7 @@ Section Window.
 Variables (ts te hs rs sc D : Z) (l : nat) (st0 : list bool) (p : Z).
 Definition c_on : control := {| c_cond := CSim Req ts 0; c_prio := p; c_act := (l, true) |}.
 Definition c_off : control := {| c_cond := CSim Req te 0; c_prio := p; c_act := (l, false) |}.
-Definition g2 : cfg := {| hyd_step := hs; rule_step := rs; duration := D; start_clock := sc; controls := [c_on; c_off]; rules := []; init_status := st0 |}.
+Definition gw : cfg := {| hyd_step := hs; rule_step := rs; duration := D; start_clock := sc; controls := [c_on; c_off]; rules := []; init_status := st0 |}.
 Hypothesis Hrs : 0 < rs.
 Hypothesis Hhs : 0 < hs.
 Hypothesis Hwin : 0 < ts < te.
@@ -28,7 +28,7 @@ Definition active (x : Z) : bool := (ts <=? x) && (x <? te).
 Definition target (x : Z) : list bool := set_nth st0 l (active x).
 
 Lemma loop_silent2 prev t st : forall fuel ri, 0 <= ri -> (Z.to_nat (t / rs + 1 - ri) < fuel)%nat ->
-  exists ri', 0 <= ri' /\ presolve_loop fuel g2 prev st [] 0 t ri st = Some (t, ri', st).
+  exists ri', 0 <= ri' /\ presolve_loop fuel gw prev st [] 0 t ri st = Some (t, ri', st).
 Proof.
   induction fuel as [|fuel IH]; intros ri Hri Hf; [lia|].
   cbn [presolve_loop]. cbn [length Nat.ltb Nat.leb negb andb skipn]. simpl rule_step. simpl rules. simpl start_clock.
@@ -51,7 +51,7 @@ Lemma loop_fires2 prev t st (c : control) (v : bool) b rest :
   c_act c = (l, v) -> (l < length st)%nat -> nth l st v <> v -> 0 <= t - b ->
   match rest with [] => True | (_, b') :: _ => b' <> b end ->
   forall fuel ri, 0 <= ri -> (Z.to_nat ((t - b) / rs + 1 - ri) < fuel)%nat ->
-  exists ri', 0 <= ri' /\ presolve_loop fuel g2 prev st ((c, b) :: rest) 0 t ri st = Some (t - b, ri', set_nth st l v).
+  exists ri', 0 <= ri' /\ presolve_loop fuel gw prev st ((c, b) :: rest) 0 t ri st = Some (t - b, ri', set_nth st l v).
 Proof.
   intros Hact Hlen Hn Hb Hrest. induction fuel as [|fuel IH]; intros ri Hri Hf; [lia|].
   cbn [presolve_loop]. cbn [length Nat.ltb Nat.leb negb andb skipn]. simpl rule_step. simpl rules. simpl start_clock.
@@ -73,7 +73,7 @@ Local Opaque presolve_loop.
 (* one solved step from a state that satisfies the invariant "the statuses are those of the last solved time" *)
 Lemma window_one_step first prev t ri : 0 <= ri -> prev < t -> 0 <= t -> (first = true -> prev = -1 /\ t = 0) ->
   exists t1 ri',
-    one_step g2 (first, prev, t, ri, target prev) = Some ((t1, target t1), (false, t1, t1 + hs - (t1 + hs) mod hs, ri', target t1))
+    one_step gw (first, prev, t, ri, target prev) = Some ((t1, target t1), (false, t1, t1 + hs - (t1 + hs) mod hs, ri', target t1))
     /\ 0 <= ri' /\ prev < t1 <= t /\ ~ (prev < ts < t1) /\ ~ (prev < te < t1).
 Proof.
   intros Hri Hpt Ht Hfirst. unfold one_step, presolve. simpl controls. simpl start_clock. simpl rule_step. simpl hyd_step.
@@ -141,7 +141,7 @@ Definition winv (s : sstate) : Prop :=
   match s with (first, prev, t, ri, st) => 0 <= ri /\ -1 <= prev < t /\ 0 <= t /\ (first = true -> prev = -1 /\ t = 0) /\ st = target prev end.
 Definition s_prev (s : sstate) : Z := match s with (_, prev, _, _, _) => prev end.
 
-Lemma window_steps : forall f s tr sf, winv s -> steps f g2 D s = Some (tr, sf) ->
+Lemma window_steps : forall f s tr sf, winv s -> steps f gw D s = Some (tr, sf) ->
   winv sf /\ (forall e, In e tr -> snd e = target (fst e) /\ s_prev s < fst e <= s_prev sf) /\
   (forall x, (x = ts \/ x = te) -> s_prev s < x <= s_prev sf -> In x (map fst tr)).
 Proof.
@@ -156,12 +156,12 @@ Proof.
   - injection H as <- <-. split; [exact Hinv'|]. cbn [s_prev]. split.
     + intros e [<-|[]]. cbn [fst snd]. split; [reflexivity|lia].
     + intros x Hx Hr. left. cbn [fst]. destruct Hx as [->| ->]; lia.
-  - destruct (steps f g2 D (false, t1, t1 + hs - (t1 + hs) mod hs, ri', target t1)) as [[tr' sf']|] eqn:Es; [|discriminate].
+  - destruct (steps f gw D (false, t1, t1 + hs - (t1 + hs) mod hs, ri', target t1)) as [[tr' sf']|] eqn:Es; [|discriminate].
     injection H as <- <-. destruct (IH _ _ _ Hinv' Es) as (Hsf & Hall & Hcov). cbn [s_prev] in *. split; [exact Hsf|]. split.
     + intros e [<-|He]; cbn [fst snd].
       * split; [reflexivity|]. assert (t1 <= s_prev sf'); [|lia].
-        destruct tr' as [|e0 r0]; [destruct f; cbn [steps] in Es; [discriminate|]; destruct (one_step g2 _) as [[? ?]|]; [|discriminate];
-          destruct (D <? _); [discriminate|]; destruct (steps f g2 D _) as [[? ?]|]; discriminate|].
+        destruct tr' as [|e0 r0]; [destruct f; cbn [steps] in Es; [discriminate|]; destruct (one_step gw _) as [[? ?]|]; [|discriminate];
+          destruct (D <? _); [discriminate|]; destruct (steps f gw D _) as [[? ?]|]; discriminate|].
         destruct (Hall e0 (or_introl eq_refl)). lia.
       * destruct (Hall e He). split; [assumption|lia].
     + intros x Hx Hr. cbn [map]. destruct (Z.eq_dec x t1) as [->|Hne1]; [left; reflexivity|]. right. apply Hcov; [exact Hx|].
@@ -169,16 +169,75 @@ Proof.
 Qed.
 
 (* the run of a model whose target starts "off": on exactly during [ts, te), and steps are solved at exactly ts and te when the run gets there *)
-Theorem window_exact f tr sf : nth l st0 true = false -> steps f g2 D (init_state g2) = Some (tr, sf) ->
+Theorem window_exact f tr sf : nth l st0 true = false -> steps f gw D (init_state gw) = Some (tr, sf) ->
   (forall e, In e tr -> nth l (snd e) false = active (fst e) /\ snd e = set_nth st0 l (active (fst e))) /\
   (ts <= s_prev sf -> In ts (map fst tr)) /\ (te <= s_prev sf -> In te (map fst tr)).
 Proof.
-  intros H0 H. assert (Hinit : winv (init_state g2)).
+  intros H0 H. assert (Hinit : winv (init_state gw)).
   { unfold init_state, winv. simpl init_status. repeat split; try lia. unfold target, active.
     destruct (Z.leb_spec ts (-1)); [lia|]. simpl. symmetry. apply (set_nth_id st0 l true false Hl H0). }
   destruct (window_steps f _ _ _ Hinit H) as (_ & Hall & Hcov). cbn [s_prev init_state] in *. split; [|split].
   - intros e He. destruct (Hall e He) as [E _]. split; [|exact E]. rewrite E. unfold target. apply nth_set_nth. exact Hl.
   - intro Hx. apply Hcov; [left; reflexivity|lia].
   - intro Hx. apply Hcov; [right; reflexivity|lia].
+Qed.
+
+(* ... and such a run exists and ends at the duration (total correctness): D a positive multiple of the hydraulic step *)
+Lemma next_grid_mod t1 : (t1 + hs - (t1 + hs) mod hs) mod hs = 0.
+Proof. rewrite Zminus_mod, Z.mod_mod by lia. rewrite Z.sub_diag. apply Z.mod_0_l. lia. Qed.
+Lemma next_grid_le t1 t : t mod hs = 0 -> t1 < t -> t1 + hs - (t1 + hs) mod hs <= t.
+Proof.
+  intros Hg Hlt. pose proof (Z.div_mod t hs ltac:(lia)) as Et. rewrite Hg in Et.
+  pose proof (Z.div_mod (t1 + hs) hs ltac:(lia)) as E1. pose proof (Z.mod_pos_bound (t1 + hs) hs Hhs) as Hm.
+  assert ((t1 + hs) / hs <= t / hs); [|nia].
+  assert (H : (t1 + hs) / hs < t / hs + 1); [|lia]. apply Z.div_lt_upper_bound; [lia|]. nia.
+Qed.
+Lemma window_progress : D mod hs = 0 -> forall n s, winv s -> st_time s mod hs = 0 -> st_time s <= D ->
+  (Z.to_nat (D - s_prev s) < n)%nat -> exists tr sf, steps n gw D s = Some (tr, sf) /\ s_prev sf = D.
+Proof.
+  intros HD. induction n as [|n IH]; intros s Hinv Hg HtD Hn; [lia|].
+  destruct s as [[[[first prev] t] ri] st]. pose proof Hinv as (Hri & [Hp1 Hpt] & Ht & Hfirst & ->). cbn [st_time s_prev] in *.
+  destruct (window_one_step first prev t ri Hri Hpt Ht Hfirst) as (t1 & ri' & E & Hri' & Ht1 & _ & _).
+  cbn [steps]. rewrite E. cbn [st_time].
+  pose proof (Z.mod_pos_bound (t1 + hs) hs Hhs) as Hm.
+  destruct (Z.ltb_spec D (t1 + hs - (t1 + hs) mod hs)) as [Hd|Hd].
+  - eexists; eexists; split; [reflexivity|]. cbn [s_prev].
+    destruct (Z.eq_dec t1 t) as [->|Hne].
+    + (* t on the grid, t <= D < t + hs, D on the grid *)
+      pose proof (Z.div_mod t hs ltac:(lia)) as Et. rewrite Hg in Et. pose proof (Z.div_mod D hs ltac:(lia)) as Ed. rewrite HD in Ed.
+      assert (En : t + hs - (t + hs) mod hs = t + hs).
+      { rewrite Z.add_mod by lia. rewrite Hg, Z.mod_same by lia. simpl. rewrite Z.mod_0_l by lia. lia. }
+      rewrite En in Hd. assert (t / hs <= D / hs) by nia. assert (D / hs < t / hs + 1) by nia. nia.
+    + pose proof (next_grid_le t1 t Hg ltac:(lia)). lia.
+  - assert (Hinv' : winv (false, t1, t1 + hs - (t1 + hs) mod hs, ri', target t1)).
+    { unfold winv. split; [exact Hri'|]. split; [lia|]. split; [lia|]. split; [discriminate|reflexivity]. }
+    destruct (IH _ Hinv' (next_grid_mod t1) Hd) as (tr' & sf' & Es & Hend); [cbn [s_prev]; lia|].
+    rewrite Es. eexists; eexists; split; [reflexivity|exact Hend].
+Qed.
+
+Theorem window_total : 0 < D -> D mod hs = 0 -> nth l st0 true = false ->
+  exists f tr sf, steps f gw D (init_state gw) = Some (tr, sf) /\
+    (forall e, In e tr -> nth l (snd e) false = active (fst e)) /\
+    (ts <= D -> In ts (map fst tr)) /\ (te <= D -> In te (map fst tr)) /\ In D (map fst tr).
+Proof.
+  intros HD Hmod H0. assert (Hinit : winv (init_state gw)).
+  { unfold init_state, winv. simpl init_status. repeat split; try lia. unfold target, active.
+    destruct (Z.leb_spec ts (-1)); [lia|]. simpl. symmetry. apply (set_nth_id st0 l true false Hl H0). }
+  destruct (window_progress Hmod (S (Z.to_nat (D + 1))) (init_state gw) Hinit) as (tr & sf & Es & Hend);
+    [apply Z.mod_0_l; lia|cbn [st_time init_state]; lia|cbn [s_prev init_state]; lia|].
+  exists (S (Z.to_nat (D + 1))), tr, sf. split; [exact Es|].
+  destruct (window_exact _ _ _ H0 Es) as (Ha & Hb & Hc). rewrite Hend in Hb, Hc.
+  split; [intros e He; exact (proj1 (Ha e He))|]. split; [exact Hb|]. split; [exact Hc|].
+  (* the last solved time is D *)
+  destruct (window_steps _ _ _ _ Hinit Es) as (_ & Hall & _). cbn [s_prev init_state] in Hall. rewrite Hend in Hall.
+  clear - Es Hall Hend HD Hhs Hrs Hwin Hl.
+  assert (Hlast : forall f s tr sf, steps f gw D s = Some (tr, sf) -> In (s_prev sf) (map fst tr)).
+  { induction f as [|f IH]; intros s tr0 sf0 H; cbn [steps] in H; [discriminate|].
+    destruct (one_step gw s) as [[e s']|] eqn:E1; [|discriminate].
+    assert (Hs' : s_prev s' = fst e).
+    { destruct s as [[[[a b] c] d] e0]. unfold one_step in E1. destruct (presolve _ _ _ _ _ _ _) as [[[x y] z]|]; [|discriminate]. injection E1 as <- <-. reflexivity. }
+    destruct (D <? st_time s'); [injection H as <- <-; left; symmetry; exact Hs'|].
+    destruct (steps f gw D s') as [[tr1 sf1]|] eqn:E2; [|discriminate]. injection H as <- <-. right. eapply IH. exact E2. }
+  rewrite <- Hend. eapply Hlast. exact Es.
 Qed.
 End Window.
